@@ -8,7 +8,7 @@ from typing import Dict, List, Optional, Set, Tuple
 from ..model import AnchorError, Program, dotted, last_attr, norm, parent, walk_no_nested
 from ..report import Check
 from .c12 import _domain, chain_subject, failing_default_sites, reaching_default
-from .common import calls_in, guards_of, local_assignments, returns_of, stmt_of
+from .common import calls_in, guards_of, local_assignments, need_locals, returns_of, stmt_of
 
 
 def r15_1(prog: Program, chk: Check) -> None:
@@ -75,6 +75,7 @@ def r15_2(prog: Program, chk: Check) -> None:
 def r15_3(prog: Program, chk: Check) -> None:
     chk.rule("R15.3", "final consistency check: when both a lower and an upper bound were recorded, top.can_assign(bottom) is checked and its error returned before a solution is chosen", floor=2)
     fn = prog.func("typevar", "solve")
+    need_locals(fn, "bottom", "top", "bound", "options", "solution", "available", "can_assigns", "option")
     ok = False
     why = "no `if bottom is BOTTOM ... elif top is TOP ... else` chain"
     for n in fn.body:
@@ -150,6 +151,7 @@ def r15_4(prog: Program, chk: Check) -> None:
 def r15_5(prog: Program, chk: Check) -> None:
     chk.rule("R15.5", "errors surface: resolve_bounds_map collects every solver error and every caller tests them", floor=4)
     fn = prog.func("typevar", "resolve_bounds_map")
+    need_locals(fn, "solution", "errors", "tv_map")
     t = norm(fn)
     chk.ob(
         "R15.5",
